@@ -387,6 +387,102 @@ func runC17(c *Ctx) {
 				}
 				cur = d
 			}
+			if cmpPtr == nil {
+				// the comparison is skipped for an empty slot ('ptr != nil && val(ptr) > value'): it no longer
+				// dominates the swap, but every path to the swap that avoids it leaves a nil test of the compared
+				// pointer on its nil side
+				fn := cas.Parent()
+				for _, cb := range fn.Blocks {
+					ifi, ok := cb.Instrs[len(cb.Instrs)-1].(*ssa.If)
+					if !ok {
+						continue
+					}
+					bo, ok := ifi.Cond.(*ssa.BinOp)
+					if !ok || !(bo.Op == token.GTR || bo.Op == token.LSS || bo.Op == token.GEQ || bo.Op == token.LEQ) {
+						continue
+					}
+					rx, ry := entryRoots(bo.X, nodeT), entryRoots(bo.Y, nodeT)
+					if len(rx) != 1 || len(ry) != 1 {
+						continue
+					}
+					var cand ssa.Value
+					switch {
+					case stripConv(ry[0]) == fresh:
+						cand = stripConv(rx[0])
+					case stripConv(rx[0]) == fresh:
+						cand = stripConv(ry[0])
+					}
+					if cand == nil {
+						continue
+					}
+					// reachability from the entry, not through the comparison block and not along the non-nil
+					// edge of a nil test of cand
+					seenB := map[*ssa.BasicBlock]bool{}
+					var walk func(b *ssa.BasicBlock)
+					walk = func(b *ssa.BasicBlock) {
+						if seenB[b] || b == cb {
+							return
+						}
+						seenB[b] = true
+						if nif, ok := b.Instrs[len(b.Instrs)-1].(*ssa.If); ok {
+							if nb, ok := nif.Cond.(*ssa.BinOp); ok && (nb.Op == token.EQL || nb.Op == token.NEQ) {
+								x, y := stripConv(nb.X), stripConv(nb.Y)
+								isNil := func(v ssa.Value) bool { k, ok := v.(*ssa.Const); return ok && k.Value == nil }
+								if (x == cand && isNil(y)) || (y == cand && isNil(x)) {
+									// follow only the edge on which cand is nil
+									nilEdge := 0
+									if nb.Op == token.NEQ {
+										nilEdge = 1
+									}
+									walk(b.Succs[nilEdge])
+									return
+								}
+							}
+						}
+						for _, sc := range b.Succs {
+							walk(sc)
+						}
+					}
+					walk(fn.Blocks[0])
+					// the swap may be reached that way only with cand == nil: accept when the only bypass is the nil side
+					bypassNonNil := false
+					if seenB[cas.Block()] {
+						// reached: was it through a nil edge only? re-walk refusing nil edges altogether
+						seen2 := map[*ssa.BasicBlock]bool{}
+						var walk2 func(b *ssa.BasicBlock)
+						walk2 = func(b *ssa.BasicBlock) {
+							if seen2[b] || b == cb {
+								return
+							}
+							seen2[b] = true
+							if nif, ok := b.Instrs[len(b.Instrs)-1].(*ssa.If); ok {
+								if nb, ok := nif.Cond.(*ssa.BinOp); ok && (nb.Op == token.EQL || nb.Op == token.NEQ) {
+									x, y := stripConv(nb.X), stripConv(nb.Y)
+									isNil := func(v ssa.Value) bool { k, ok := v.(*ssa.Const); return ok && k.Value == nil }
+									if (x == cand && isNil(y)) || (y == cand && isNil(x)) {
+										// the nil edge is fine (an empty slot needs no comparison); the non-nil edge
+										// must meet the comparison before it reaches the swap
+										nonNil := 1
+										if nb.Op == token.NEQ {
+											nonNil = 0
+										}
+										walk2(b.Succs[nonNil])
+										return
+									}
+								}
+							}
+							for _, sc := range b.Succs {
+								walk2(sc)
+							}
+						}
+						walk2(fn.Blocks[0])
+						bypassNonNil = seen2[cas.Block()]
+					}
+					if !bypassNonNil {
+						cmpPtr = cand
+					}
+				}
+			}
 			_, freshIsLit := argBehindParam(write, fresh).(*ssa.Alloc)
 			if !freshIsLit {
 				// built by a constructor helper of the package: every value it returns is an entry allocated in it
